@@ -458,7 +458,66 @@ fn to_ref(r: &Range) -> RefRange {
     }
 }
 
+// ---------------------------------------------------------------------------------------------
+// the same texts as headers of real requests: what the backend receives must be what the public parser
+// gives for the text, and a text the parser refuses must be refused by the adapter
+// ---------------------------------------------------------------------------------------------
+
+thread_local! {
+    static E2E_RT: tokio::runtime::Runtime = crate::engine::new_runtime();
+    static E2E_TICK: std::cell::Cell<u64> = const { std::cell::Cell::new(0) };
+}
+
+/// `direct`: Debug rendering of the value the public parser gives for `text` (None: refused)
+fn e2e_header(r: &mut Report, kind: &str, text: &str, direct: Option<String>, every: u64) {
+    // a sample of the texts (each costs a whole request)
+    let go = E2E_TICK.with(|t| {
+        t.set(t.get() + 1);
+        t.get() % every == 0
+    });
+    if !go || text.bytes().any(|b| b < 0x20 && b != b'\t' || b == 0x7f) || text.starts_with([' ', '\t']) || text.ends_with([' ', '\t']) {
+        return;
+    }
+    use crate::engine::{RawRequest, SvcCfg, backend_events, run_once};
+    let (req, member) = match kind {
+        "range" => (RawRequest::new("GET", "/e2e-bucket/e2e-key").header("host", "h").header("range", text), "range"),
+        "http-date" => (RawRequest::new("GET", "/e2e-bucket/e2e-key").header("host", "h").header("if-modified-since", text), "if_modified_since"),
+        "copy-source" => (RawRequest::new("PUT", "/e2e-bucket/e2e-key").header("host", "h").header("x-amz-copy-source", text), "copy_source"),
+        _ => return,
+    };
+    if req.build().is_none() {
+        return;
+    }
+    let (out, events) = E2E_RT.with(|rt| run_once(rt, &SvcCfg::default(), None, &req));
+    let be = backend_events(&events);
+    let wit = || json!({"kind": "e2e-header", "header_kind": kind, "text": text, "direct": direct, "outcome": out.to_json(), "backend_member": be.first().map(|b| b.input.member_debug(member))});
+    let Some(resp) = out.response() else {
+        r.violated(format!("C14/{kind}/header-path/no-response"), wit());
+        return;
+    };
+    match (&direct, be.first()) {
+        (Some(d), Some(b)) => {
+            let got = b.input.member_debug(member);
+            if got == format!("Some({d})") {
+                r.held(format!("{kind}/header-path/accept"));
+            } else {
+                r.violated(format!("C14/{kind}/header-path/differs-from-public-parser"), wit());
+            }
+        }
+        (Some(_), None) => r.violated(format!("C14/{kind}/header-path/refuses-what-the-public-parser-accepts"), wit()),
+        (None, Some(_)) => r.violated(format!("C14/{kind}/header-path/accepts-what-the-public-parser-refuses"), wit()),
+        (None, None) => {
+            if (400..500).contains(&resp.status) {
+                r.held(format!("{kind}/header-path/refuse"));
+            } else {
+                r.violated(format!("C14/{kind}/header-path/refusal-not-a-client-error"), wit());
+            }
+        }
+    }
+}
+
 fn check_range_string(r: &mut Report, s: &str, class: &str) {
+    e2e_header(r, "range", s, std::panic::catch_unwind(|| Range::parse(s).ok().map(|x| format!("{x:?}"))).ok().flatten(), if class == "zero-padded" || class.starts_with("fixed") { 1 } else { 24 });
     let got = std::panic::catch_unwind(|| Range::parse(s).ok());
     let expect = ref_range_parse(s);
     // positions at or above 2^63 and digit strings beyond u64: the statement is silent
@@ -564,6 +623,15 @@ fn range_near_grammar(r: &mut Report, g: &mut Rng, n: u64) {
     ];
     for (s, c) in FIXED {
         check_range_string(r, s, &format!("fixed/{c}"));
+    }
+    // RFC 9110 positions are 1*DIGIT: any number of leading zeros is the same position
+    for &k in &[1usize, 5, 18, 19, 20, 25, 30, 40, 64, 100, 200] {
+        for &m in &[0usize, 1, 19, 30, 64, 200] {
+            let (a, b) = (g.range(0, 300), g.range(300, 900));
+            check_range_string(r, &format!("bytes={}{a}-{}{b}", "0".repeat(k), "0".repeat(m)), "zero-padded");
+            check_range_string(r, &format!("bytes={}{a}-", "0".repeat(k)), "zero-padded");
+            check_range_string(r, &format!("bytes=-{}{b}", "0".repeat(k + m)), "zero-padded");
+        }
     }
     const EDIT: &[u8] = b"0123456789-=,+ .xb";
     for _ in 0..n {
@@ -838,7 +906,7 @@ pub fn run(ctx: &RunCtx) -> i32 {
     let mut total = Report::new();
     ranges_exhaustive(&mut total, ctx.tier.sz(12, 24));
     total.note(format!("ranges: exhaustive over values and lengths 0..={} plus boundary values", ctx.tier.sz(12, 24)));
-    let jobs = ctx.tier.sz(512, 16_384);
+    let jobs = ctx.tier.sz(2048, 16_384);
     let per_ts = ctx.tier.sz(1500, 20_000);
     let rep = par_run(ctx.workers, jobs, |j, r| {
         let mut g = Rng::new(derive_seed(ctx.seed, "C14", j));
